@@ -1,6 +1,7 @@
 // Implementation evaluator: reads one case per line on stdin, runs it against the real hyeong
 // library built from /repo's working tree, prints one canonical result line per case.
 mod numl;
+mod parsel;
 
 use std::io::{BufRead, Write};
 use std::panic;
@@ -15,6 +16,7 @@ fn main() {
         let toks: Vec<&str> = line.split(' ').filter(|s| !s.is_empty()).collect();
         let res = panic::catch_unwind(|| match toks.first() {
             Some(&"num") => numl::handle(&toks[1..]),
+            Some(&"parse") => parsel::handle(&toks[1..]),
             _ => "bad:layer".to_string(),
         });
         match res {
